@@ -9,6 +9,7 @@ import (
 	"path/filepath"
 	"strings"
 	"sync"
+	"sync/atomic"
 	"syscall"
 	"testing"
 	"time"
@@ -232,6 +233,8 @@ type C16COp struct {
 type C16CCase struct {
 	Kind int      `json:"kind"` // 0 streamable, 1 legacy SSE, 2 stdio
 	Ops  []C16COp `json:"ops"`
+	// Roots: a roots provider is set before the first handshake
+	Roots bool `json:"roots,omitempty"`
 }
 
 var c16Calls = []string{"ListTools", "CallTool", "ListPrompts", "GetPrompt", "ListResources", "ReadResource", "RootsChanged"}
@@ -246,7 +249,12 @@ func genC16C(t *rapid.T) C16CCase {
 		}
 		switch op.Op {
 		case "init":
-			op.Init = rapid.SampledFrom([]string{"ok", "ok", "transport-error", "rpc-error", "malformed", "notify-fails"}).Draw(t, "init")
+			// later-fail: everything the client sends during the handshake besides the two handshake messages is lost
+			// (whether it sends anything else is its business; whatever Initialize then returns, state and guard must agree with it)
+			op.Init = rapid.SampledFrom([]string{"ok", "ok", "transport-error", "rpc-error", "malformed", "notify-fails", "later-fail"}).Draw(t, "init")
+			if c.Kind == 2 && op.Init == "later-fail" {
+				op.Init = "ok"
+			}
 			if c.Kind == 2 && (op.Init == "transport-error" || op.Init == "notify-fails") && rapid.IntRange(0, 7).Draw(t, "childdies") != 0 {
 				// a dying stdio child costs seconds in Close (see C08); keep that class rare here
 				op.Init = "rpc-error"
@@ -260,6 +268,7 @@ func genC16C(t *rapid.T) C16CCase {
 		}
 		c.Ops = append(c.Ops, op)
 	}
+	c.Roots = rapid.IntRange(0, 2).Draw(t, "roots") == 0
 	return c
 }
 
@@ -330,6 +339,7 @@ func execC16C(c C16CCase) *Failure {
 		}
 		return FakeAction{}
 	}
+	var inHandshake atomic.Bool
 	br := &Bridge{H: fake}
 	br.Fault = func(r *SeenReq) error {
 		if r.RPC == "initialize" && nextInit == "transport-error" {
@@ -337,6 +347,9 @@ func execC16C(c C16CCase) *Failure {
 		}
 		if r.RPC == "notifications/initialized" && nextInit == "notify-fails" {
 			return errors.New("write tcp: broken pipe (scripted)")
+		}
+		if nextInit == "later-fail" && inHandshake.Load() && r.Method == "POST" && r.RPC != "initialize" && r.RPC != "notifications/initialized" {
+			return errors.New("write tcp: broken pipe (scripted, after the handshake messages)")
 		}
 		return nil
 	}
@@ -430,6 +443,12 @@ func execC16C(c C16CCase) *Failure {
 	} else {
 		defer client.Close()
 	}
+	if c.Roots {
+		type rootsSetter interface{ SetRootsProvider(mcp.RootsProvider) }
+		if rs, ok := client.(rootsSetter); ok {
+			rs.SetRootsProvider(mcp.NewDefaultRootsProvider(mcp.Root{URI: "file:///r", Name: "r"}))
+		}
+	}
 	childUsed := false
 	for i, op := range c.Ops {
 		where := fmt.Sprintf("kind=%d op %d %s%s%s (initialized=%v)", c.Kind, i, op.Op, op.Init, op.Call, inited)
@@ -445,7 +464,9 @@ func execC16C(c C16CCase) *Failure {
 			}
 			nextInit = mode
 			ctx, cancel := context.WithTimeout(context.Background(), 5*time.Second)
+			inHandshake.Store(true)
 			_, err := client.Initialize(ctx, &mcp.InitializeRequest{})
+			inHandshake.Store(false)
 			cancel()
 			if c.Kind == 2 {
 				childUsed = true
@@ -468,6 +489,20 @@ func execC16C(c C16CCase) *Failure {
 			case mode == "after-first":
 				if err == nil {
 					inited = true
+				}
+			case mode == "later-fail":
+				if err == nil {
+					inited = true
+					if client.GetState() != mcp.StateInitialized {
+						return Failf("C16/state", "%s: state %q after a successful handshake", where, client.GetState())
+					}
+				} else {
+					if strings.Contains(err.Error(), "already initialized") {
+						return Failf("C16/stale-initialized-flag", "%s: handshake refused as already initialized: %v", where, err)
+					}
+					if client.GetState() == mcp.StateInitialized {
+						return Failf("C16/state", "%s: Initialize failed (%v) and left the state %q", where, err, client.GetState())
+					}
 				}
 			case mode == "ok":
 				if err != nil {
